@@ -16,7 +16,10 @@ spec -> impl: (a) every such string with its predicted resolution is replayed th
               with the real YamlIndex::build, walks YamlCursor/YamlValue per document and
               compares with Val; to_json / to_json_document must equal the tree's JSON
               (parsed-token comparison, key order included);
-              (c) a sample of the documents goes through the CLI `succinctly yq -o json`.
+              (c) AMPLIFICATION: behaviours that passed are concatenated (same break kind, `---` before each
+              appended document) into streams holding 62..320 collections, incl. the multiples of 64 +- 1, and
+              loaded/compared the same way (index tables sized per 64 collections are only reached there);
+              (d) a sample of the documents goes through the CLI `succinctly yq -o json`.
 
 Interpretation decisions (no false alarms):
 * The generated space contains only constructs whose YAML 1.2 meaning is beyond doubt; the
@@ -240,14 +243,22 @@ def run(ctx):
     path, total = generate(ctx, q, '{"K1", "K2"}')
     b = vlib.harness_bin("c14")
     mp = ctx.path("mismatches.ndjson")
-    rc, out, wall = vlib.sh([b, "replay", path, mp, "samples=%d" % (40 if q else 200)], timeout=3000)
+    # the replay also runs the AMPLIFICATION stage: already-checked behaviours of one break kind are concatenated
+    # (`---` before each appended document) into streams of 62..320 collections (multiples of 64 +- 1 included),
+    # expected value = concatenation of the expected documents; 16 targets x 3 break kinds x `amplify` repetitions
+    rc, out, wall = vlib.sh([b, "replay", path, mp, "samples=%d" % (40 if q else 200), "seed=%d" % ctx.seed,
+                             "amplify=%d" % (2 if q else 25)], timeout=3000)
     summ = json.loads(out.strip().splitlines()[-1])
     ctx.stage("replay load", wall, **summ)
     if summ["behaviours"] != total or summ["distinct_documents"] < 1000 or summ["max_nodes"] < 20:
         raise vlib.ToolError("replay is vacuous: %s" % summ)
+    if summ["amplified_streams"] < 30 or summ["amplified_max_collections"] < 257:
+        raise vlib.ToolError("amplification stage is vacuous: %s" % summ)
+    ctx.cov["amplified_streams"] = summ["amplified_streams"]
+    ctx.cov["amplified_max_collections"] = summ["amplified_max_collections"]
     report_mismatches(ctx, mp, ("build", "value", "json", "panic"))
     ncli = cli_stage(ctx, mp + ".samples", limit=40 if q else 200)
-    ctx.cov["evaluations"] = summ["distinct_documents"] + nstr + ncli
+    ctx.cov["evaluations"] = summ["distinct_documents"] + summ["amplified_streams"] + nstr + ncli
     ctx.cov["distinct_nontrivial"] = summ["feature_classes"]
     ctx.cov["rule"] = ("one evaluation = one distinct rendered YAML stream loaded by the real YamlIndex and compared with the "
                        "denotation (value walk + 3 JSON outputs), or one string resolved by resolve_plain, or one CLI run; "
